@@ -26,3 +26,20 @@ pub use crate::types::{current_key_val, RandomAccess, SSIterator};
 
 #[cfg(test)]
 mod test_util;
+
+/// Verification hooks (only with `--cfg sstable_verif`): re-exports of crate-private items so
+/// that an external harness can drive them directly.
+#[cfg(sstable_verif)]
+pub mod verif {
+    pub use crate::block::{Block, BlockIter};
+    pub use crate::block_builder::BlockBuilder;
+    pub use crate::blockhandle::BlockHandle;
+    pub use crate::cache::{Cache, CacheID, CacheKey};
+    pub use crate::filter_block::{FilterBlockBuilder, FilterBlockReader};
+    pub use crate::table_block::{read_filter_block, read_table_block};
+    pub use crate::table_builder::{
+        Footer, FOOTER_LENGTH, FULL_FOOTER_LENGTH, TABLE_BLOCK_CKSUM_LEN, TABLE_BLOCK_COMPRESS_LEN,
+    };
+    pub use crate::table_reader::{take_block_events, BlockEvent};
+    pub use crate::types::{mask_crc, unmask_crc};
+}
